@@ -239,6 +239,16 @@ func modeCancel1(a args) {
 			}
 			sch = scheduler.NewScheduler(tr)
 			sch.VerifSetPause(time.Millisecond)
+			if sp.Idx%2 == 0 && sp.Point != "cond-error" && sp.Via != "cond" {
+				// mark the beginning of every scheduling pass in the trace: a condition evaluated in a pass that
+				// BEGAN after Cancel had returned is a command started after cancellation completed
+				sch.VerifSetPause(4 * time.Millisecond)
+				scheduler.VerifSetHandler(func(point string, _ ...interface{}) {
+					if point == "sched.pass" {
+						appendTrace(trace, "PASS")
+					}
+				})
+			}
 			go func() { schedDone <- sch.Schedule(g) }()
 		} else {
 			for _, t := range tasks {
@@ -444,8 +454,18 @@ func modeCancel1(a args) {
 		for i, t := range toks {
 			// only when the scheduler itself was cancelled: a scheduler that was not told about a cancelled runner
 			// keeps evaluating conditions, which is not what the statement is about
-			if sp.Via == "scheduler" && sp.Point != "before-run" && i > cret+condSlack(toks, cret) && strings.HasPrefix(t, "COND:") {
-				fail("condition-evaluated-after-cancel-returned", fmt.Sprintf("stage condition %s was executed after CANCEL_RET (and after the evaluation that was under way)", t))
+			if sp.Via == "scheduler" && sp.Point != "before-run" && i > cret && strings.HasPrefix(t, "COND:") {
+				// the pass that was under way when Cancel returned may finish its evaluations; a pass that began
+				// afterwards must not evaluate anything
+				newPass := false
+				for _, u := range toks[cret+1 : i] {
+					if u == "PASS" {
+						newPass = true
+					}
+				}
+				if newPass {
+					fail("condition-evaluated-after-cancel-returned", fmt.Sprintf("stage condition %s was executed in a scheduling pass that began after CANCEL_RET", t))
+				}
 			}
 			if i > cret && (strings.HasPrefix(t, "S:") || strings.HasPrefix(t, "B:") || strings.HasPrefix(t, "A2:") || (strings.HasPrefix(t, "A:") && strings.HasSuffix(t, ":E"))) {
 				fail("command-started-after-cancel-returned", fmt.Sprintf("token %s appears after CANCEL_RET", t))
